@@ -445,9 +445,9 @@ def final_ret(fr, acc, default):
         # JSON-representable but not sanitized: must come back normalised
         return {'acc': acc, 'val': (1, (2, 3.0), {4: 'x', None: [True]})}
     if isinstance(shape, list) and shape and shape[0] == 'val':
-        return {'acc': acc, 'val': shape[1]}
+        return {'acc': acc, 'val': copy.deepcopy(shape[1])}      # (never the program's own literal)
     if isinstance(shape, list) and shape and shape[0] == 'raw':
-        return shape[1]
+        return copy.deepcopy(shape[1])
     return default
 
 
@@ -519,6 +519,7 @@ def call_bf(ctx, fr, s):
     sent_kwargs = copy.deepcopy(o.get('kwargs', {}))
     target_abs = ctx.ap(r)
     fn_raised = []
+    fn_retained = []
 
     def fn(b2, filename, *args, **kwargs):
         key = ('bf', filename)
@@ -545,7 +546,9 @@ def call_bf(ctx, fr, s):
         finally:
             ctx.mark('fret', fr2.where)
         ctx.point('exit:' + fname)
-        return final_ret(fr2, acc, [acc])
+        result = final_ret(fr2, acc, [acc])
+        fn_retained.append(result)
+        return result
 
     pth = spell(ctx, r, o.get('sp'))
     ckey = ('bf', os.path.abspath(target_abs))
@@ -581,6 +584,9 @@ def call_bf(ctx, fr, s):
         ctx.rets.append(('bf', os.path.abspath(target_abs), copy.deepcopy(ret)))
     if o.get('mut_after'):
         MUTATE(ctx, (sent_args, sent_kwargs), o['mut_after'], 'caller-args')
+    if o.get('mut_retained') and fn_retained:
+        # the callee kept a reference to the object it returned and edits it after the call
+        MUTATE(ctx, fn_retained[-1], o['mut_retained'], 'callee-retained-return')
     if o.get('keep'):
         fr.vals[o['keep']] = ret
     return ['ok', ret]
@@ -627,6 +633,7 @@ def call_sb(ctx, fr, s):
     sent_args = copy.deepcopy(o.get('args', []))
     sent_kwargs = copy.deepcopy(o.get('kwargs', {}))
     fn_raised = []
+    fn_retained = []
 
     def fn(b2, *args, **kwargs):
         key = ('sb', canon([fname, list(args), kwargs]))
@@ -645,7 +652,9 @@ def call_sb(ctx, fr, s):
         finally:
             ctx.mark('fret', fr2.where)
         ctx.point('exit:' + fname)
-        return final_ret(fr2, acc, {'v': acc})
+        result = final_ret(fr2, acc, {'v': acc})
+        fn_retained.append(result)
+        return result
 
     try:
         ckey = ('sb', canon([fname, roundtrip(list(sent_args)), roundtrip(sent_kwargs)]))
@@ -671,6 +680,9 @@ def call_sb(ctx, fr, s):
             pass
     if o.get('mut_after'):
         MUTATE(ctx, (sent_args, sent_kwargs), o['mut_after'], 'caller-args')
+    if o.get('mut_retained') and fn_retained:
+        # the callee kept a reference to the object it returned and edits it after the call
+        MUTATE(ctx, fn_retained[-1], o['mut_retained'], 'callee-retained-return')
     if o.get('keep'):
         fr.vals[o['keep']] = ret
     return ['ok', ret]
